@@ -181,8 +181,17 @@ def p_fea(job):
     from fontTools.feaLib.builder import addOpenTypeFeatures
     from fontTools.fontBuilder import addFvar
 
-    path = os.path.join(os.environ["VMON_REPO"], "Tests", job["input"])
     font = _fea_font()
+    if "gen" in job:
+        # a generated feature file (many language systems, aalt over language-specific features, size, kern)
+        import random
+        from fontTools.feaLib.builder import addOpenTypeFeaturesFromString
+        from vmon.gen import c16_fea
+
+        text = c16_fea.generate(random.Random("c16-fea/%s" % job["gen"]))
+        addOpenTypeFeaturesFromString(font, text)
+        return ("tables", {t: font.getTableData(t) for t in sorted(font.keys()) if t != "GlyphOrder"}, font)
+    path = os.path.join(os.environ["VMON_REPO"], "Tests", job["input"])
     if os.path.basename(path).startswith("variable_"):
         from fontTools.ttLib import newTable
 
@@ -203,11 +212,15 @@ def p_subset(job):
     font = _binary(job["input"])
     cps = sorted(font.getBestCmap() or {})[job.get("phase", 0)::2]
     o = subset.Options()
-    o.layout_features = ["*"]
-    o.glyph_names = True
-    o.notdef_outline = True
-    o.name_IDs = ["*"]
-    o.name_languages = ["*"]
+    if job.get("opts") is not None:
+        # the documented command-line forms, including the in-place list edits --opt+=a,b / --opt-=a,b
+        o.parse_opts(list(job["opts"]))
+    elif not job.get("defaults"):
+        o.layout_features = ["*"]
+        o.glyph_names = True
+        o.notdef_outline = True
+        o.name_IDs = ["*"]
+        o.name_languages = ["*"]
     if job.get("retain_gids"):
         o.retain_gids = True
     s = subset.Subsetter(o)
@@ -229,6 +242,8 @@ def p_instance(job):
         lim = {a.axisTag: ((a.minValue + a.defaultValue) / 2, (a.maxValue + a.defaultValue) / 2) for a in ax[:1]}
         for a in ax[1:2]:
             lim[a.axisTag] = a.maxValue
+    if job.get("downgradeCFF2"):
+        return instancer.instantiateVariableFont(font, lim, downgradeCFF2=True)
     return instancer.instantiateVariableFont(font, lim)
 
 
@@ -490,7 +505,10 @@ def main(argv):
     out = {"hashseed": os.environ.get("PYTHONHASHSEED"), "jobs": {}}
     real_stdout = sys.stdout
     sys.stdout = sys.stderr          # the library prints warnings from a few places
-    for job in spec["jobs"]:
+    jobs = list(spec["jobs"])
+    if spec.get("order") == "reversed":
+        jobs.reverse()
+    for job in jobs:
         _state["job"] = job["id"]
         t0 = _REAL["time"]()
         try:
